@@ -2,7 +2,7 @@
 
 Theorems: coq/Properties/C09.v (ISO 6937 / ISO 8859 tables and classifiers decided in the kernel over the whole
 byte domain; the text-field machine refines the specification for every byte list; times from the C12 lemmas;
-region geometry over Q; value-vs-identity comparison of subtitle numbers).  Ties: tables regenerated from the
+region geometry over Q; grouping and per-block steps of the reader).  Ties: tables regenerated from the
 source (harness/gen_c09.py), exhaustive ISO 6937 correspondence (256 single bytes, 15 x 256 diacritic pairs),
 random text fields through ttconv.stl.tf.to_model, byte-level generated files x reader configurations through
 ttconv.stl.reader.to_model; all compared inside Coq with M (Model/StlDatafile.v reader_model) and judged by S
@@ -12,9 +12,10 @@ from fractions import Fraction
 import common as C
 import gen_tables
 
-FINDINGS = ["tcp-attribute-error", "mnr-sets-start-offset", "cumulative-before-first", "sn-identity", "tf-strip-not-cut",
-            "df-23976", "iso6937-a4", "comment-flag-ignored", "blank-row-dropped", "vp-zero-above-safe-area",
-            "tnb-zero-division"]            # bit i of Model/StlTriggers.v trigger_mask
+FINDINGS = ["cumulative-before-first", "tf-strip-not-cut", "df-23976", "iso6937-a4", "comment-flag-ignored",
+            "blank-row-dropped", "vp-zero-above-safe-area", "tnb-zero-division"]      # bit i of Model/StlTriggers.v trigger_mask
+# repaired upstream (fixed: entries of KNOWN_FINDINGS.txt; regression witnesses in harness/witnesses_c09.py):
+# tcp-attribute-error 9e84fe8, mnr-sets-start-offset 41b1329, sn-identity 434048d
 DFCS = [b"STL23.01", b"STL24.01", b"STL25.01", b"STL30.01", b"STL50.01"]
 NOMINAL = {b"STL23.01": 24, b"STL24.01": 24, b"STL25.01": 25, b"STL30.01": 30, b"STL50.01": 50}
 ERRORS = {"error": "EStruct", "AttributeError": "EAttribute", "ValueError": "EValue", "ZeroDivisionError": "EZeroDiv"}
@@ -366,15 +367,8 @@ def finding_witnesses():
     base = dict(start=None, rows=None, nofill=False, nopad=False, fonts=None)
     def paras(r): return [p for d in r[1]["divs"] for p in d] if r[0] == "ok" else None
     def text_of(p): return "".join(i[1][5] for i in p[5] if i[0] == "leaf" and i[1][0] == "run")
-    r = run_reader(gsi(tcp=b"0000XX00") + tti(), dict(base, start="TCP"))
-    res["tcp-attribute-error"] = "AttributeError instead of a zero programme start" if r == ("err", "EAttribute") else None
-    r = run_reader(gsi(dsc=b"0", mnr=b"XX") + tti(tci=(0, 0, 30, 0), tco=(0, 0, 31, 0)), dict(base, rows="MNR"))
-    res["mnr-sets-start-offset"] = "AttributeError (max_row_count never set, start_offset = 23)" if r == ("err", "EAttribute") else None
     r = run_reader(gsi() + tti(cs=2), base)
     res["cumulative-before-first"] = "AttributeError on None" if r == ("err", "EAttribute") else None
-    a = paras(run_reader(gsi() + tti(sn=5, tf=b"A") + tti(sn=5, tf=b"B", tci=(0, 0, 3, 0), tco=(0, 0, 4, 0)), base))
-    b = paras(run_reader(gsi() + tti(sn=300, tf=b"A") + tti(sn=300, tf=b"B", tci=(0, 0, 3, 0), tco=(0, 0, 4, 0)), base))
-    res["sn-identity"] = f"{len(a)} paragraph(s) for SN 5,5 but {len(b)} for SN 300,300" if a is not None and b is not None and len(a) != len(b) else None
     p = paras(run_reader(gsi() + tti(tf=b"\x8fAB"), base))
     res["tf-strip-not-cut"] = "text after a leading unused-space byte is presented: " + repr(text_of(p[0])) if p and text_of(p[0]) == "AB" else None
     p = paras(run_reader(gsi(dfc=b"STL23.01") + tti(tci=(0, 1, 0, 0), tco=(0, 1, 0, 1)), base))
@@ -515,7 +509,7 @@ def main():
 
     broken = []; iso_m_bad = []; iso_s_bad = []; iso_a4 = 0
     tf_m_bad = []; tf_s_bad = []; tf_excused = 0
-    file_m_bad = []; file_meq_bad = []; file_s_bad = []; file_known = {}; in_domain = 0; spec_ok_n = 0
+    file_m_bad = []; file_s_bad = []; file_known = {}; in_domain = 0; spec_ok_n = 0
     for kind, base, p in files:
         rc, out = res[p]
         v = verdicts(out) if rc == 0 else None
@@ -535,8 +529,7 @@ def main():
         else:
             for idx, x in zip(base, v):
                 if not x & 1: file_m_bad.append(idx)
-                if not x & 2: file_meq_bad.append(idx)
-                sv = (x >> 2) & 3; mask = x >> 4
+                sv = (x >> 1) & 3; mask = x >> 3
                 if sv: in_domain += 1
                 if sv == 1: spec_ok_n += 1
                 if sv == 2:
@@ -545,10 +538,9 @@ def main():
                             if mask >> b & 1: file_known.setdefault(fid, []).append(idx)
                     else: file_s_bad.append(idx)
     C.clean_cases("Cases_C09_")
-    variant = "identity (is not)" if not file_m_bad else ("value comparison (!=)" if not file_meq_bad else "neither")
     run.log(f"ISO 6937: model/code mismatches {len(iso_m_bad)}, S failures {len(iso_s_bad)}, excused by iso6937-a4 {iso_a4}; "
             f"text fields: mismatches {len(tf_m_bad)}, S failures {len(tf_s_bad)}, excused {tf_excused}; "
-            f"files: mismatches {len(file_m_bad)} (variant: {variant}), in S's domain {in_domain}, S ok {spec_ok_n}, "
+            f"files: mismatches {len(file_m_bad)}, in S's domain {in_domain}, S ok {spec_ok_n}, "
             f"S failures outside findings {len(file_s_bad)}, covered by findings {sum(len(v) for v in file_known.values())}, "
             f"unexpected exceptions/shapes {len(others)}, broken case files {len(broken)}")
 
@@ -559,13 +551,6 @@ def main():
     rc, out = C.coqc(C.COQ + "/Findings/C09.v", 600)
     stale = []
     if rc != 0: stale.append("Findings/C09.v no longer compiles: " + out[-300:])
-    proposed = set()
-    try:
-        for line in open(C.VERIF + "/findings_proposed/C09.txt"):
-            m = re.match(r"finding\s+property=C09\s+id=(\S+)", line)
-            if m: proposed.add(m.group(1))
-    except FileNotFoundError:
-        pass
     fired = []
     for fid in FINDINGS:
         if wit.get(fid):
@@ -577,9 +562,9 @@ def main():
                 file_s_bad += file_known[fid]
     if stale: run.cov["stale_findings"] = stale
     run.cov["recorded_findings_firing"] = fired
-    unlisted_ids = [f for f in FINDINGS if f not in proposed and f not in {x["id"] for x in run.findings}]
+    unlisted_ids = [f for f in FINDINGS if f not in {x["id"] for x in run.findings}]
     if unlisted_ids:
-        run.violation("findings used by the check but listed neither in KNOWN_FINDINGS.txt nor in findings_proposed/C09.txt: " + ", ".join(unlisted_ids),
+        run.violation("findings used by the check but not listed in KNOWN_FINDINGS.txt: " + ", ".join(unlisted_ids),
                       dict(kind="hygiene", ids=unlisted_ids), False)
 
     # ---- verdict --------------------------------------------------------------------------------------------------------
@@ -608,24 +593,18 @@ def main():
         idx, what = others[0]
         run.violation(f"the reader raised an undocumented exception or returned an unexpected document shape: {what}",
                       dict(kind="S-on-code", clause="reader outcome", first=describe(idx), count=len(others)))
-    tie_broken = iso_m_bad or tf_m_bad or (file_m_bad and file_meq_bad) or broken or not proofs_ok
+    tie_broken = iso_m_bad or tf_m_bad or file_m_bad or broken or not proofs_ok
     if tie_broken and not s_fail:
         what = []
         if not proofs_ok: what.append("theorems of coq/Properties/C09.v no longer check: " + getattr(run, "proof_log", "")[-600:])
         if iso_m_bad: what.append(f"Model/Iso6937.v vs iso6937.decode disagree on {len(iso_m_bad)} strings, first {iso_rows[iso_m_bad[0]][0].hex()}")
         if tf_m_bad: what.append(f"Model/StlTf.v vs tf.to_model disagree on {len(tf_m_bad)} text fields, first {tf_rows[tf_m_bad[0]][2].hex()}")
-        if file_m_bad and file_meq_bad: what.append(f"Model/StlDatafile.v vs reader.to_model disagree on {len(file_m_bad)} files, first {cases[file_m_bad[0]][2]}")
+        if file_m_bad: what.append(f"Model/StlDatafile.v vs reader.to_model disagree on {len(file_m_bad)} files, first {cases[file_m_bad[0]][2]}")
         if broken: what.append(f"case files did not evaluate: {broken[0]}")
         run.violation("; ".join(what), dict(kind="broken-tie", theorem_file="coq/Properties/C09.v", proofs_ok=proofs_ok,
                                             correspondence="Model/Iso6937.v, Model/StlTf.v, Model/StlDatafile.v vs ttconv/stl",
                                             first_file=describe((file_m_bad or [0])[0]) if file_m_bad else None,
                                             first_tf=tf_rows[tf_m_bad[0]][2].hex() if tf_m_bad else None), found_input=False)
-    if file_m_bad and not file_meq_bad:
-        run.cov["model_variant"] = "value comparison of subtitle numbers: the `is not` defect appears repaired"
-        run.cov.setdefault("stale_findings", []).append("sn-identity: all files agree with the corrected variant of the model")
-    else:
-        run.cov["model_variant"] = "identity comparison of subtitle numbers (`is not`), as in the source"
-
     distinct = len({json.dumps(r[1], default=str, sort_keys=True) for r in results if r[0] == "ok" and any(r[1]["divs"])})
     hist = lambda f: {str(k): sum(1 for c in cases if f(c) == k) for k in sorted({f(c) for c in cases}, key=str)}
     run.cov.update(
